@@ -41,7 +41,7 @@ def expected_bytes(audio):
 class Execution(object):
     """One run of a control program under a scheduling strategy."""
 
-    def __init__(self, h, program, audios, wait, choose, max_steps=3000, fine=False):
+    def __init__(self, h, program, audios, wait, choose, max_steps=3000, fine=False, faults=None):
         self.h = h
         self.program = program
         self.audios = audios
@@ -56,6 +56,8 @@ class Execution(object):
         self.sched, self.backend = h.new_run(choose, max_steps=max_steps * (12 if fine else 1),
                                              on_step=self._on_step, fine=fine)
         self.result = None
+        self.faults = dict(faults or {})          # player number -> chunk number whose device write raises
+        self.backend.fail_at = {"stream%d" % p: k for p, k in self.faults.items()}
 
     # -- naming of shim objects ---------------------------------------------------------------------
     def _name(self, kind, obj):
@@ -114,6 +116,8 @@ class Execution(object):
         if ts.tid == 0 and kind in ("begin", "end"):
             return
         name, tgt = self._name(kind, obj)
+        if kind == "write" and getattr(obj, "fault_now", False):
+            name = "write-fault"
         self.events.append({"proc": ts.tid, "op": name, "obj": tgt if ts.tid == 0 else 0,
                             "after": self.projection()})
 
@@ -166,7 +170,7 @@ class Execution(object):
         if self.main_exc is not None:
             bad.append(("caller-exception", repr(self.main_exc)))
         for t in self.sched.order[1:]:
-            if t.exc is not None:
+            if t.exc is not None and not (isinstance(t.exc, IOError) and "injected" in str(t.exc)):
                 bad.append(("player-exception", repr(t.exc)))
         if self.result == "deadlock":
             bad.append(("close-never-returns", {"blocked": self.sched.deadlock}))
@@ -177,7 +181,7 @@ class Execution(object):
         for i, st in enumerate(b.streams):
             exp = expected_bytes(self.audios[i]) if i < len(self.audios) else []
             got = [c[0] for c in st.chunks]
-            stopped = i < len(self.players) and self.players[i].halting
+            stopped = (i < len(self.players) and self.players[i].halting) or st.failed
             if any(c[1] != CHUNK for c in st.chunks):
                 bad.append(("chunk-frames", i + 1))
             if got != exp[:len(got)]:
@@ -260,10 +264,14 @@ def random_program(rng, np_, maxctl, wait):
 # M1: the design
 # ==================================================================================================
 def m1(ctx):
-    main_cfgs = ("AudioIO_fixed_nowait.cfg", "AudioIO_fixed_wait.cfg") if ctx.thorough else \
-        ("AudioIO_q_nowait.cfg", "AudioIO_q_wait.cfg")
-    sens_cfgs = (("AudioIO_sens_stop.cfg", ("temporal",)), ("AudioIO_sens_join.cfg", ("NoThreadAlive",))) \
-        if ctx.thorough else (("AudioIO_qsens_stop.cfg", ("temporal",)), ("AudioIO_qsens_join.cfg", ("NoThreadAlive",)))
+    # *_fault_* configurations: a device write may raise once per player (Faults = TRUE)
+    main_cfgs = ("AudioIO_fixed_nowait.cfg", "AudioIO_fixed_wait.cfg", "AudioIO_fault_nowait.cfg",
+                 "AudioIO_fault_wait.cfg") if ctx.thorough else \
+        ("AudioIO_q_nowait.cfg", "AudioIO_q_wait.cfg", "AudioIO_qfault_nowait.cfg", "AudioIO_qfault_wait.cfg")
+    sens_cfgs = (("AudioIO_sens_stop.cfg", ("temporal",)), ("AudioIO_sens_join.cfg", ("NoThreadAlive",)),
+                 ("AudioIO_sens_fault.cfg", ("temporal",))) \
+        if ctx.thorough else (("AudioIO_qsens_stop.cfg", ("temporal",)), ("AudioIO_qsens_join.cfg", ("NoThreadAlive",)),
+                              ("AudioIO_qsens_fault.cfg", ("temporal",)))
     for cfg in main_cfgs:
         r = tlc.run("AudioIO", cfg, coverage=True)
         tlc.require_ok(r, "AudioIO " + cfg, need_actions=("p1w", "p3", "p5", "p5h", "c7", "c8j", "st3", "pa2", "re2"))
@@ -584,6 +592,8 @@ def check(ctx):
     ctx.rule = ("executions of the real lazy_io under the deterministic scheduler; distinct = distinct "
                 "(control program, schedule) pairs; non-trivial = >= 2 players or >= 1 pause/stop")
     ctx.assumptions = ["with wait=True close() is not called while a player is paused and never resumed",
+                       "fault model: at most one device write per player raises (IOError); anything else a "
+                       "backend could do wrong is not modelled",
                        "default float sample format; the scheduler is the OS: pre-emption only at "
                        "synchronisation/backend operations"]
     nrand = 300 if not ctx.thorough else 4000
@@ -611,7 +621,12 @@ def m3(ctx, h, count):
             choose = random_choice(rng)
         else:
             choose = pct_choice(rng, np_ + 1, rng.randint(0, 3), 60)
-        ex = Execution(h, prog, audios, wait, choose)
+        faults = {}
+        if rng.random() < 0.3:
+            pl = rng.randint(1, np_)
+            if nch[pl - 1] > 0:
+                faults[pl] = rng.randint(1, nch[pl - 1])     # the device write of that chunk raises
+        ex = Execution(h, prog, audios, wait, choose, faults=faults)
         ex.run()
         sig = (tuple(prog), tuple((e["proc"], e["op"]) for e in ex.events))
         nontriv = np_ >= 2 or any(o[0] in ("pause", "stop") for o in prog)
@@ -645,7 +660,8 @@ def m3_fine(ctx, h, count):
         audios = [audio_for(i + 1, nch[i], rng.random() < 0.5) for i in range(np_)]
         prog = random_program(rng, np_, 4, wait)
         choose = random_choice(rng) if k % 2 else pct_choice(rng, np_ + 1, rng.randint(1, 4), 400)
-        ex = Execution(h, prog, audios, wait, choose, fine=True)
+        faults = {1: 1} if (k % 5 == 4 and nch[0] > 0) else {}
+        ex = Execution(h, prog, audios, wait, choose, fine=True, faults=faults)
         ex.run()
         ctx.count(1, nontrivial_key=("fine", k))
         for clause, detail in ex.monitors():
@@ -668,7 +684,7 @@ def validate(ctx, batches, fine=False):
             fh.write("---- MODULE AudioIOTraceB%d ----\nEXTENDS AudioIOTrace\nBChunks == %s\n====\n"
                      % (bi, tlaval.to_tla(tuple(nch))))
         consts = {"NP": np_, "NChunks": "<- BChunks", "MaxCtl": 50, "Wait": "TRUE" if wait else "FALSE",
-                  "StopWakes": "TRUE", "JoinAll": "TRUE"}
+                  "StopWakes": "TRUE", "JoinAll": "TRUE", "Faults": "TRUE", "RunFinally": "TRUE"}
         traces = [{"events": r["events"]} for r in runs]
         acc, rej = tracecheck.run_traces(ctx, root, consts, traces,
                                          next_="TNextF" if fine else "TNext",
